@@ -30,9 +30,35 @@ func init() {
 
 func runC10(c *Ctx) {
 	p := c.Progs["mod"]
-	c.Rule("C10.L", "lockset on sessions.Cache.cache; miss and insertion under one hold", 2)
+	c.Rule("C10.L", "lockset on sessions.Cache.cache; miss and insertion under one hold; keyed by the session ID itself", 3)
 	checkGuards(c, p, "C10.L", agentGuards[:1])
 	ruleCheckThenActOneHold(c, p, "C10.L", "agent/sessions.(*Cache).cachedCookieJar")
+	// the jar of a session is filed under the session ID itself: a derived key (a parsed UUID with
+	// a zero value for what does not parse, a prefix, a hash) files different IDs under one jar
+	if f := c.need(p, "C10.L", "agent/sessions.(*Cache).cachedCookieJar"); f != nil {
+		n := 0
+		bad := ""
+		EachInstr(f, func(i ssa.Instruction) {
+			cc := CallOf(i)
+			if cc == nil {
+				return
+			}
+			switch CalleeName(cc) {
+			case "(*github.com/golang/groupcache/lru.Cache).Get", "(*github.com/golang/groupcache/lru.Cache).Add", "(*github.com/golang/groupcache/lru.Cache).Remove":
+			default:
+				return
+			}
+			n++
+			k := PArgs(cc)[1]
+			if mi, isMI := k.(*ssa.MakeInterface); isMI {
+				k = mi.X
+			}
+			if PathOf(k) != P(f, 1) {
+				bad = PathOf(k) + " at " + p.Pos(i.Pos())
+			}
+		})
+		c.Check("C10.L", "cache:keyed-by-the-session-id-itself", p, f.Pos(), bad == "" && n >= 2, fmt.Sprintf("%d cache operations keyed by the sessionID parameter itself", n), "the session cache is keyed by "+bad+" instead of the session ID string: distinct IDs that map to one key (every non-UUID value to uuid.Nil, say) share a cookie jar, so one client's backend cookies are sent for another")
+	}
 
 	const T = "agent/sessions.sessionResponseWriter"
 	mT := "(*" + ModPath + "/agent/sessions.sessionResponseWriter)"
